@@ -438,7 +438,7 @@ def work(groups):
                         out['grad_ok' if g1[0] == 'ok' else 'grad_failed'] += 1
                         out['outcomes'].add((g1[0] if g1[0] == 'ok' else 'exc:' + g1[1], bool(fails)))
                         out['fingerprints'].add(hash((backend, form, kind, body, at, excname, g1, tuple(fails))))
-                        if len(out['samples']) < 3:
+                        if kind == 'f64vec' and body == 'probe' and at in (0, 2):     # a fixed subset
                             out['samples'].append([key_of(backend, form, kind, body, at, excname), texts['f'], texts['grad'],
                                                    show_out(g1)[:80], 'pure' if not fails else 'IMPURE'])
                         if fails:
@@ -472,6 +472,43 @@ def classify(backend, form, kind, fails):
     if backend == 'torch' and form in ('a∇f', 'p∇f') and kind.startswith(('f64', 'mat')):
         return 'numeric_grad-perturbs-callers-array-in-place'
     return '%s-%s-impure' % (backend, FORMS[form][0])
+
+
+def selftest():
+    """The observation machinery itself: the typed canonical form separates what the property separates, and the snapshot
+    comparison notices an in-place perturbation, a change of kind, a new global and a leaked scope."""
+    a = np.array([1.0, 2.0, 3.0])
+    assert tc(a) == tc(a.copy()) and tc(a) != tc(a.astype(np.float32)) and tc(a) != tc(a + 1e-6)
+    assert tc(2.0) != tc(np.float64(2.0)) and tc(2.0) != tc(np.array(2.0)) and tc(2) != tc(2.0)
+    assert tc(np.array([1, 2])) != tc(np.array([1.0, 2.0])) and tc(a) != tc(a.reshape(1, 3))
+    k = interp('numpy')
+    k('a::[1.0 2.0 3.0]')
+    k('b::0.5')
+    s0 = snapshot(k)
+    assert diff_snap(s0, snapshot(k)) == []
+    k._context._context[0][KGSym('a')][1] += 1e-6
+    d = diff_snap(s0, snapshot(k))
+    assert len(d) == 1 and d[0].startswith('a: ndarray float64[3] [1.0 2.0 3.0] ->'), d
+    k['a'] = np.array([1.0, 2.0, 3.0])      # (the text `a::[1.0 2.0 3.0]` would re-assign the cached, now perturbed, literal)
+    k['b'] = np.array(0.5)
+    assert [x.split(':')[0] for x in diff_snap(s0, snapshot(k))] == ['b']
+    k('b::0.5')
+    k('c::1')
+    assert [x.split(':')[0] for x in diff_snap(s0, snapshot(k))] == ['c']
+    k._context.push({})
+    assert any('depth' in x for x in diff_snap(s0, snapshot(k)))
+    # fault positions: the probe raises exactly at the armed invocation and is quiet otherwise
+    pr = Probe()
+    f = pr.fn()
+    pr.armed, pr.at = True, 2
+    assert f(1) == 1
+    try:
+        f(1)
+        raise AssertionError('probe did not raise')
+    except RuntimeError:
+        pass
+    assert f(5) == 5 and pr.n == 3
+    return 'typed canonical form, snapshot comparison and fault probe behave as specified'
 
 
 def run(cfg):
